@@ -37,6 +37,7 @@ type c13Script struct {
 	rmFailFrom, rmFailTo time.Duration // lock removes in this window fail
 	removeAt           time.Duration // somebody else removes all lock files (0 = never)
 	idempotentRemove   bool          // removing a file that does not exist is not an error (as on object stores)
+	removeInWindow     bool          // somebody else removes the lock files right after the first existence check of a forced refresh
 	writeOnFreeze      bool          // a repository write is issued (with the lock context) while the backend is frozen
 	unlockAt           time.Duration
 }
@@ -49,6 +50,7 @@ type c13Backend struct {
 	sc     c13Script
 	lines  [][]string
 	frozen bool
+	windowDone bool
 	ctx    context.Context // the context returned by Lock, once known
 }
 
@@ -116,6 +118,14 @@ func (b *c13Backend) List(ctx context.Context, t backend.FileType, fn func(backe
 		names = append(names, fi.Name[:8])
 		return fn(fi)
 	})
+	// another client's `unlock` lands between the first existence check of the forced refresh and the
+	// upload of the replacement lock
+	b.mu.Lock()
+	hit := b.frozen && b.sc.removeInWindow && !b.windowDone
+	if hit {
+		b.windowDone = true
+	}
+	b.mu.Unlock()
 	sort.Strings(names)
 	l := "-"
 	if len(names) > 0 {
@@ -125,6 +135,15 @@ func (b *c13Backend) List(ctx context.Context, t backend.FileType, fn func(backe
 		}
 	}
 	b.rec("list", I64(b.us()), B(err == nil), l)
+	if hit {
+		var full []string
+		_ = b.Backend.List(ctx, t, func(fi backend.FileInfo) error { full = append(full, fi.Name); return nil })
+		sort.Strings(full)
+		for _, n := range full {
+			_ = b.Backend.Remove(ctx, backend.Handle{Type: backend.LockFile, Name: n})
+			b.rec("removed-by-other", I64(b.us()), n[:8])
+		}
+	}
 	return err
 }
 
@@ -341,7 +360,7 @@ func c13Stream(h *H, t *testing.T) {
 			return lo + time.Duration(h.Intn(int((hi-lo)/unit)+1))*unit
 		}
 		kind := ""
-		switch h.Intn(10) {
+		switch h.Intn(12) {
 		case 0:
 			kind = "healthy"
 		case 1:
@@ -382,7 +401,7 @@ func c13Stream(h *H, t *testing.T) {
 			kind = "removes-fail"
 			sc.rmFailFrom = rnd(0, eri)
 			sc.rmFailTo = sc.rmFailFrom + rnd(ert, 2*ert)
-		case 9:
+		case 9, 10, 11:
 			// an outage that swallows every regular refresh of one refreshability period and ends just
 			// before the monitor forces a refresh: the forced refresh runs on a working backend, with the
 			// lock file still there (must succeed) or removed by somebody else meanwhile (must cancel)
@@ -391,9 +410,13 @@ func c13Stream(h *H, t *testing.T) {
 			nticks := (ert / eri) // regular ticks inside one period
 			sc.failFrom = k*eri + rnd(unit, eri-unit)
 			sc.failTo = (k+nticks)*eri + rnd(unit, ert-nticks*eri-unit)
-			if h.Intn(2) == 0 {
+			switch h.Intn(3) {
+			case 0:
 				kind = "removed-outage-ends-before-forced-refresh"
 				sc.removeAt = rnd(sc.failFrom, sc.failTo)
+			case 1:
+				kind = "removed-inside-forced-refresh-window"
+				sc.removeInWindow = true
 			}
 		case 7:
 			kind = "short-outages-and-slow"
@@ -409,7 +432,7 @@ func c13Stream(h *H, t *testing.T) {
 		if h.Intn(8) == 0 {
 			sc.unlockAt = rnd(eri/2, ert) // early unlock
 		}
-		sc.idempotentRemove = h.Intn(2) == 0
+		sc.idempotentRemove = h.Intn(2) == 0 || (sc.removeInWindow && h.Intn(4) != 0)
 		// (not together with slow saves: a goroutine parked on the gate's mutex is not "durably blocked"
 		// for synctest, so virtual time could not advance during the forced refresh)
 		sc.writeOnFreeze = sc.slow == 0 && h.Intn(3) != 0
